@@ -1,4 +1,6 @@
 //! C16 — schedule strings: varint kernels, round trip, malformed input.
+#[cfg(not(kani))]
+use crate::shim as kani;
 use shuttle_engine::scheduler::serialization::verif_exports::{space_needed, ReadVarInt, WriteVarInt, SCHEDULE_MAGIC_V2};
 use shuttle_engine::scheduler::serialization::{deserialize_schedule, serialize_schedule};
 use shuttle_engine::scheduler::{Schedule, ScheduleStep, TaskId};
@@ -205,9 +207,14 @@ fn malformed_bin<const N: usize>() {
         v.push(body[i]);
         i += 1;
     }
+    #[cfg(not(kani))]
+    let native_hex = hex::encode(&v);
     unsafe { HEX_BYTES = Some(v) };
     // must return, not panic
+    #[cfg(kani)]
     let r = deserialize_schedule("");
+    #[cfg(not(kani))]
+    let r = deserialize_schedule(&native_hex);
     if N >= 1 {
         assert!(r.is_none() || body[0] == SCHEDULE_MAGIC_V2, "C16: unknown version accepted");
     }
